@@ -445,6 +445,17 @@ def _literal_side_condition(P, fn, S, cfg, bb, s, path):
         if sg[0] == 'const' and str(sg[1]).endswith("IBig::" + want[0]) and ex[0] == 'const' and ex[1] == want[1]:
             return True, "constants (%s, %d)" % want
         return False, "expected (%s, %d), got (%s, %s)" % (want[0], want[1], sym.term_str(sg, 60), sym.term_str(ex, 30))
+    if path.endswith("::convert_base"):
+        # only field-for-field copies of the (normalised) operand into the same-valued Repr of another
+        # const parameter: an operand that is *computed* (exponent * n, significand * k) is a value in a
+        # different base and needs Repr::new to be normalised there
+        sg = strip_bb(S.operand(rv["ops"][0]))
+        ex = strip_bb(S.operand(rv["ops"][1]))
+        def field_of_arg(t, name):
+            return isinstance(t, tuple) and t[0] == 'place' and t[1] == ('arg', 2) and tuple(t[2]) == ("." + name,)
+        if field_of_arg(sg, "significand") and field_of_arg(ex, "exponent"):
+            return True, "field-for-field copy of the operand"
+        return False, "operands (%s, %s) are not the operand's own fields: a value re-expressed in another base must go through Repr::new (normalisation)" % (sym.term_str(sg, 60), sym.term_str(ex, 60))
     return True, "reviewed"
 
 
